@@ -16,6 +16,7 @@ import (
 	"net/http/httptest"
 	"strings"
 	"time"
+	rpac "verif/ref/pac"
 
 	"verif/checks/apworld"
 	"verif/engine"
@@ -453,7 +454,7 @@ func (m *memSessions) Get(r *http.Request, k string) ([]byte, error) {
 }
 
 func sequences(c *engine.Ctx, wd *world, evals *int64) {
-	events := []string{"fresh", "fresh-user2", "replay", "replay-sname-case-flipped", "none", "garbage", "cookie", "cookie-of-first-session", "forged-cookie"}
+	events := []string{"fresh", "fresh-user2", "fresh-with-pac", "replay", "replay-sname-case-flipped", "none", "garbage", "cookie", "cookie-of-first-session", "forged-cookie"}
 	managers := []string{"none", "memory", "failing-new", "failing-get", "get-returns-ended-session-with-error"}
 	depth := 4
 	var rec func(seq []string)
@@ -481,8 +482,21 @@ func sequences(c *engine.Ctx, wd *world, evals *int64) {
 			legitHeader := false
 			wantUser := "user1"
 			switch ev {
-			case "fresh", "fresh-user2":
+			case "fresh", "fresh-user2", "fresh-with-pac":
 				cs := apworld.Base(18)
+				if ev == "fresh-with-pac" {
+					// a correctly signed PAC whose display name is not the account name: the identity stays the ticket's
+					v := rpac.SampleGOKRB5()
+					v.EffectiveName.Value, v.FullName.Value = "user1", "User One (display name)"
+					key, _ := wd.w.Lookup([]string{"HTTP", apworld.SvcHost}, apworld.Realm, 2, 18)
+					pb, lay := rpac.Assemble([]rpac.Buffer{{Type: rpac.TypeLogonInfo, Data: v.Encode()}, {Type: rpac.TypeClientInfo, Data: rpac.ClientInfo(v.LogonTime, "user1")},
+						{Type: rpac.TypeServerSig, Data: rpac.SigBuffer(16, nil)}, {Type: rpac.TypeKDCSig, Data: rpac.SigBuffer(16, nil)}})
+					if err := rpac.Sign(pb, lay, 2, 3, 16, 18, key, 16, 18, wd.w.RandKey(18)); err != nil {
+						engine.Fatal("sign: %v", err)
+					}
+					cs.AuthzData = []krbmsg.AuthDataEntry{{Type: 1, Data: krbmsg.EncodeAuthData([]krbmsg.AuthDataEntry{{Type: 128, Data: pb}})}}
+					cs.AuthzLabel = "pac:valid"
+				}
 				if ev == "fresh-user2" {
 					// a longer name than user1, so that its encoded credentials are not shorter
 					cs.CName, cs.ACName = []string{"user2-with-a-longer-name"}, []string{"user2-with-a-longer-name"}
